@@ -93,6 +93,7 @@ pub fn exec(case: &[i64]) -> Outcome {
       let okmap: HashMap<String, bool> = ds.iter().map(|(m, i, ok)| (did_str(*m, *i), ds.iter().any(|(m2, i2, ok2)| m2 == m && i2 == i && *ok2 != 0) && *ok != 0 || ds.iter().any(|(m2, i2, ok2)| m2 == m && i2 == i && *ok2 != 0))).collect();
       let r = build(&tab, &log, &chans, &script, true);
       let waker = noop_waker(); let mut cx = Context::from_waker(&waker);
+      let mut not_started: Option<String> = None;
       let result = {
         let fut = r.resolve_multiple(&dids); futures::pin_mut!(fut);
         let mut out = None;
@@ -100,6 +101,8 @@ pub fn exec(case: &[i64]) -> Outcome {
         for (m, i) in &order {
           if out.is_some() { break; }
           let key = did_str(*m, *i);
+          // a handler can only complete once it has been invoked: the completion order of the case must be realisable, i.e. every handler was started before any result arrives
+          if matches!(registered(*m), Some((_, 0))) && !log.borrow().iter().any(|(_, c)| c == &key) { not_started.get_or_insert(key.clone()); }
           if let Some(tx) = senders.remove(&key) { let ok = *okmap.get(&key).unwrap_or(&false); let _ = tx.send(if ok { Ok(doc_for(&key, 0)) } else { Err(HErr) }); }
           if let Poll::Ready(x) = fut.as_mut().poll(&mut cx) { out = Some(x); }
         }
@@ -122,6 +125,7 @@ pub fn exec(case: &[i64]) -> Outcome {
           pairs.sort_by_key(|(m, i, _)| order.iter().position(|o| o == &(*m, *i)).unwrap_or(99));
           let mut obs = vec![0, pairs.len() as i64]; for (m, i, x) in &pairs { obs.extend([*m, *i, *x]); }
           let mut o = Outcome::new(obs).class("multi-ok");
+          if let Some(k) = &not_started { o = o.fail(&format!("the handler for {} had not been invoked when its turn to complete came: not every completion order is possible", k)); }
           if map.len() != distinct.len() || !distinct.iter().all(|s| map.keys().any(|k| k.as_str() == s)) { o = o.fail("not exactly one entry per distinct input DID"); }
           for (d, doc) in &map { if doc.id().as_str() != d.as_str() { o = o.fail("entry holds the document of another DID"); } let p: Vec<&str> = d.as_str().split(':').collect(); let m = match p[1] { "a" => 1, "b" => 2, "c" => 3, _ => 9 }; if let Some((h, _)) = registered(m) { if doc_number(doc) / 1000 != h { o = o.fail("entry does not come from the handler registered for the DID's method"); } } }
           for s in &distinct { if calls.iter().filter(|(_, c)| c == s).count() != 1 { o = o.fail("a DID was not resolved exactly once"); } }
@@ -212,6 +216,12 @@ pub fn gen(rng: &mut Rng, thorough: bool, sink: &mut Sink) {
   }
   if thorough { for _ in 0..300 { let t = &tables[3]; let n = 6; let l: Vec<(i64, i64)> = (0..n).map(|k| (1 + k % 3, 1 + k / 3)).collect(); let mut p: Vec<usize> = (0..n as usize).collect(); for i in (1..p.len()).rev() { let j = rng.below(i as u64 + 1) as usize; p.swap(i, j); }
     let mut c = head(2, t); c.push(n); for d in &l { c.extend([d.0, d.1, rng.chance(9, 10) as i64]); } c.push(n); for k in &p { c.extend([l[*k].0, l[*k].1]); } sink.case(c, "multi-random-6"); } }
+  // many distinct DIDs at once (more than any plausible concurrency limit), completing last-listed first, first-listed first and interleaved
+  for n in [9i64, 12, 17] { let t = &tables[3]; let l: Vec<(i64, i64)> = (0..n).map(|k| (1 + k % 3, 1 + k / 3)).collect();
+    let orders: Vec<Vec<usize>> = vec![(0..n as usize).rev().collect(), (0..n as usize).collect(), (0..n as usize).map(|k| if k % 2 == 0 { k / 2 } else { n as usize - 1 - k / 2 }).collect()];
+    for p in &orders { for bad in [-1i64, 0, n - 1] {
+      let mut c = head(2, t); c.push(n); for (k, d) in l.iter().enumerate() { c.extend([d.0, d.1, (k as i64 != bad) as i64]); } c.push(n); for k in p { c.extend([l[*k].0, l[*k].1]); } sink.case(c, "multi-many");
+    } } }
   for key in 0..4 { sink.case(vec![3, 0, 9, key], "did-jwk"); sink.case(vec![4, 0, 9, key], "did-jwk-private"); }
   // every single optional member, all of them, and random subsets, on every key type
   for key in 0..4 { for opt in (0..8).map(|b| 1i64 << b).chain([255, 15, 240]) { sink.case(vec![3, 0, 9, key + 10 * opt], "did-jwk-optional-members"); sink.case(vec![4, 0, 9, key + 10 * opt], "did-jwk-private"); }
